@@ -48,8 +48,10 @@ CLASSES = [('loki/subroutine.py', 'Subroutine'), ('loki/module.py', 'Module'), (
 def _dropped(f):
     out = set()
     for n in ast.walk(f.node):
-        if isinstance(n, ast.Assign) and isinstance(n.targets[0], ast.Name) and n.targets[0].id in ('_ignore', '_ignored') \
-                and isinstance(n.value, (ast.Tuple, ast.List)):
+        if isinstance(n, ast.Assign) and isinstance(n.targets[0], ast.Name) and isinstance(n.value, (ast.Tuple, ast.List)) \
+                and n.value.elts and all(isinstance(e, ast.Constant) and isinstance(e.value, str) for e in n.value.elts) \
+                and any(isinstance(c, ast.Compare) and isinstance(c.ops[0], ast.NotIn) and isinstance(c.comparators[0], ast.Name)
+                        and c.comparators[0].id == n.targets[0].id for c in ast.walk(f.node)):
             out |= {e.value for e in n.value.elts if isinstance(e, ast.Constant)}
         if isinstance(n, ast.Delete):
             for t in n.targets:
